@@ -454,6 +454,9 @@ func execCase(out *vc.Out, caseStr string) {
 			}
 		}
 		out.Case(caseStr, obs, key)
+	case "closerace":
+		k, _ := strconv.Atoi(toks[1])
+		out.Case(caseStr, runCloseRace(k), caseStr)
 	case "reattach", "reattachfree":
 		execReattach(out, caseStr, toks)
 	case "bridge", "bridgestall":
